@@ -33,15 +33,15 @@ Qed.
 
 From SV Require Export SyncIdemProofs SyncFlatProofs.
 
-Lemma ws_superset_fixed : forall frepr cf, fix_ignore cf = true ->
+Lemma ws_superset_fixed : forall frepr cf, fix_ignore cf = true -> fix_funny cf = true ->
   forall p fuel o deep sdir ddir subdir d' c m,
   wf_node (Dir sdir) = true -> o_dry_run o = false ->
   sync_ws frepr cf fuel o deep sdir ddir subdir = (d', None) ->
-  lookup_path p (Dir sdir) = Some (File c m) -> absent_in p ddir = true ->
+  lookup_path p (Dir sdir) = Some (File c m) -> absent_in false p ddir = true ->
   (o_recursive o = true \/ length p = 1%nat) -> clear_path cf o p = true ->
   lookup_path p (Dir d') = Some (File c NOW).
 Proof.
-  intros frepr cf Hfi p fuel o deep sdir ddir subdir d' c m Hwf Hdry Hrun Hs Ha Hr Hc.
+  intros frepr cf Hfi Hff p fuel o deep sdir ddir subdir d' c m Hwf Hdry Hrun Hs Ha Hr Hc.
   apply (ws_superset frepr cf p fuel o deep sdir ddir subdir d' c m); auto.
   apply forallb_forall. intros k _. unfold ignored. rewrite Hfi. reflexivity.
 Qed.
@@ -60,16 +60,21 @@ Qed.
 Lemma ws_superset_current : forall frepr p fuel o deep sdir ddir subdir d' c m,
   wf_node (Dir sdir) = true -> o_dry_run o = false ->
   sync_ws frepr cfg_current fuel o deep sdir ddir subdir = (d', None) ->
-  lookup_path p (Dir sdir) = Some (File c m) -> absent_in p ddir = true ->
+  lookup_path p (Dir sdir) = Some (File c m) -> absent_in false p ddir = true ->
   (o_recursive o = true \/ length p = 1%nat) -> clear_path cfg_current o p = true ->
   lookup_path p (Dir d') = Some (File c NOW).
-Proof. intros frepr. apply (ws_superset_fixed frepr cfg_current). reflexivity. Qed.
+Proof. intros frepr. apply (ws_superset_fixed frepr cfg_current); reflexivity. Qed.
 
 (* what "excluded" means in /repo now: a user pattern matches, or the name IS the state point / document file *)
 Lemma excluded_current : forall o n,
   excluded cfg_current o n =
-  (o_exclude o n || str_eqb FN_SP n || match o_docsync o with DS_copy => false | _ => str_eqb FN_DOC n end).
+  (o_exclude o n
+   || (o_top o && (str_eqb FN_SP n || match o_docsync o with DS_copy => false | _ => str_eqb FN_DOC n end))).
 Proof. reflexivity. Qed.
+
+(* below the top level of a job only the user's patterns exclude *)
+Lemma excluded_below_current : forall o n, excluded cfg_current (set_top o false) n = o_exclude o n.
+Proof. intros. unfold excluded, cfg_current, fix_own. cbn [o_top set_top o_exclude]. apply orb_false_r. Qed.
 
 (* /repo as it is (74ea1a0): a cloned job is the source job without whatever matches a user exclude pattern *)
 Lemma clone_paths_current : forall frepr o id sd ws p,
@@ -84,3 +89,9 @@ Proof.
   intros frepr o id sd ws p Hdry Hn Hp.
   apply (clone_paths frepr cfg_current o id sd ws p Hdry Hn). right. assumption.
 Qed.
+
+(* 4239e5d: a walk that returns met no file / directory clash that was not excluded *)
+Lemma kind_clash_never_silent : forall frepr fuel o deep sdir ddir subdir d' n,
+  sync_ws frepr cfg_current (S fuel) o deep sdir ddir subdir = (d', None) ->
+  In n (names cfg_current sdir) -> classify frepr deep n sdir ddir = Funny -> excluded cfg_current o n = true.
+Proof. intros frepr fuel o deep sdir ddir subdir d' n. apply (ok_funny_excluded frepr cfg_current). reflexivity. Qed.
